@@ -681,8 +681,13 @@ def run_task(ctx, task, grp, n, part):
             counter[0] += 1
             run_scenario(ctx, lb, sc, counter[0])
 
-        core.hyp_run(ctx, scenario_strategy(GOOD if grp == "good" else BAD), one, n, chunk=n,
-                     seed_salt=part * 13 + (0 if grp == "good" else 7))
+        if grp == "good":
+            core.hyp_run(ctx, scenario_strategy(GOOD), one, n, chunk=n, seed_salt=part * 13)
+        else:
+            # every faulty-server kind is visited in turn, so that a quick run covers all of them
+            for i in range(n):
+                kind = BAD[(part * n + i) % len(BAD)]
+                core.hyp_run(ctx, scenario_strategy([kind]), one, 1, chunk=1, seed_salt=part * 13 + 7 + i * 131)
     finally:
         lb.close()
 
